@@ -126,8 +126,8 @@ def r08_5(facts, res):
         res.oblige(1, ok)
         if not ok:
             res.add(Finding("R08-5", "ops::%s" % tr, "impl ops::%s for Value applies %s, expected the f64 %s" % (tr, ops, prim), f["file"], f["line"], {}))
-    if st["instances"] < 45:
-        raise BrokenCheck("R08-5: %d table cells (floor 45)" % st["instances"])
+    if st["instances"] < 27:
+        raise BrokenCheck("R08-5: %d table cells (floor 27)" % st["instances"])
 
 
 def r08_3(facts, res):
@@ -294,12 +294,12 @@ def run(facts, tier):
                        "leading / trailing white space around the whole expression is not part of `between tokens` and is not judged"]
     rows, ex = e2.conformance(facts, xpath10)
     e2.conformance_findings(rows, "R08-1", res)
-    if res.rules["R08-1"]["instances"] < 25:
-        raise BrokenCheck("R08-1: %d productions (floor 25)" % res.rules["R08-1"]["instances"])
+    if res.rules["R08-1"]["instances"] < 15:
+        raise BrokenCheck("R08-1: %d productions (floor 15)" % res.rules["R08-1"]["instances"])
     ex2 = tokens.extractor_for_xpath(facts)
     e2.ordered_choice(facts, ex2, res, "R01-2", XPATH_GRAMMAR, ORDERED_CHOICE_REASONS)
-    if res.rules["R01-2"]["instances"] < 15:
-        raise BrokenCheck("R01-2: %d alts (floor 15)" % res.rules["R01-2"]["instances"])
+    if res.rules["R01-2"]["instances"] < 9:
+        raise BrokenCheck("R01-2: %d alts (floor 9)" % res.rules["R01-2"]["instances"])
     r08_3(facts, res)
     r08_4(facts, res)
     r08_5(facts, res)
